@@ -20,8 +20,8 @@ theorem placedAt_toArray_append (w : Nat) (l1 l2 : List Instr) (cn : Mem) :
   · intro i hi
     simp [List.getElem?_append_right]
 
-theorem funcCode_len (cx : Cx) (fa : FAddr) (base : Nat) (params : List String) (body : S) :
-    (funcCode cx fa base params body).length = funcLen cx.checked body := by
+theorem funcCode_len (cx : Cx) (fa : FAddr) (base : Nat) (vd : Bool) (params : List String) (body : S) :
+    (funcCode cx fa base vd params body).length = funcLen cx.checked vd body := by
   unfold funcCode funcLen prologueLen
   cases hc : cx.checked <;> simp [cS_len, hc] <;> omega
 
@@ -54,8 +54,8 @@ theorem funs_placed (p : Prog) (cx : Cx) (fa : FAddr) : ∀ (fds : List FDecl) (
     (fds.map (·.name)).Nodup → PlacedAt p a (funsCode cx fa a fds) →
     ∀ fd ∈ fds,
       PlacedAt p (faddr (layout cx.checked a fds) fd.name)
-        (funcCode cx fa (faddr (layout cx.checked a fds) fd.name) fd.params fd.body) ∧
-      faddr (layout cx.checked a fds) fd.name + funcLen cx.checked fd.body ≤ a + funsLen cx.checked fds := by
+        (funcCode cx fa (faddr (layout cx.checked a fds) fd.name) fd.dfn fd.params fd.body) ∧
+      faddr (layout cx.checked a fds) fd.name + funcLen cx.checked fd.dfn fd.body ≤ a + funsLen cx.checked fds := by
   intro fds
   induction fds with
   | nil => intro a _ _ fd hfd; simp at hfd
@@ -74,11 +74,11 @@ theorem funs_placed (p : Prog) (cx : Cx) (fa : FAddr) : ∀ (fds : List FDecl) (
         intro e
         exact hnd.1 (by rw [← e]; exact List.mem_map.2 ⟨fd, hin, rfl⟩)
       have : faddr (layout cx.checked a (fd0 :: rest)) fd.name
-          = faddr (layout cx.checked (a + funcLen cx.checked fd0.body) rest) fd.name := by
+          = faddr (layout cx.checked (a + funcLen cx.checked fd0.dfn fd0.body) rest) fd.name := by
         have hb : (fd.name == fd0.name) = false := by simpa using hne
         simp [faddr, layout, List.lookup, hb]
       rw [this]
-      obtain ⟨h1, h2⟩ := ih (a + funcLen cx.checked fd0.body) hnd.2 hpl2 fd hin
+      obtain ⟨h1, h2⟩ := ih (a + funcLen cx.checked fd0.dfn fd0.body) hnd.2 hpl2 fd hin
       exact ⟨h1, by simp only [funsLen]; omega⟩
 
 /-! ## the initial state -/
@@ -247,12 +247,15 @@ def terminalEvs : Res → List Ev
 
 /-- the static conditions of `wfProg`, as the proofs use them -/
 theorem wfProg_parts {pr : CProg} (h : wfProg pr = true) :
-    pr.params.Nodup ∧ wfS false pr.params pr.body = true ∧ youLevel (hasStop pr.body) pr.body = true ∧ noFall pr.body = true ∧
+    pr.params.Nodup ∧ wfS pr.funs false pr.params pr.body = true ∧ youLevel (hasStop pr.body) pr.funs pr.body = true ∧ noFall pr.body = true ∧
     escFree false pr.body = true ∧ (pr.funs.map (·.name)).Nodup ∧
-    ∀ fd ∈ pr.funs, fd.params.Nodup ∧ wfS false fd.params fd.body = true ∧ plain fd.body = true := by
+    ∀ fd ∈ pr.funs, fd.params.Nodup ∧ wfS pr.funs fd.dfn fd.params fd.body = true ∧
+      (fd.dfn = false → plain pr.funs fd.body = true) ∧ (fd.dfn = true → noTry fd.body = true) := by
   simp only [wfProg, Bool.and_eq_true, decide_eq_true_eq, List.all_eq_true] at h
   obtain ⟨⟨⟨⟨⟨⟨⟨⟨h1, h2⟩, h3⟩, h4⟩, h4'⟩, _⟩, _⟩, h5⟩, h6⟩ := h
-  exact ⟨h1, h2, h3, h4, h4', h5, fun fd hfd => ⟨(h6 fd hfd).1.1.1, (h6 fd hfd).1.1.2, (h6 fd hfd).1.2⟩⟩
+  refine ⟨h1, h2, h3, h4, h4', h5, fun fd hfd => ⟨(h6 fd hfd).1.1.1, (h6 fd hfd).1.1.2, fun hd => ?_, fun hd => ?_⟩⟩
+  · have := (h6 fd hfd).1.2; rw [hd] at this; simpa using this
+  · have := (h6 fd hfd).1.2; rw [hd] at this; simpa using this
 
 /-- the facts about the function table that `cS_ok` needs, for the program `coreProg` -/
 theorem core_fnsOK (cf : Config) (pr : CProg) (hwf : wfProg pr = true) :
@@ -263,8 +266,9 @@ theorem core_fnsOK (cf : Config) (pr : CProg) (hwf : wfProg pr = true) :
   unfold progCode at hall
   have h2 := hall.append.2
   rw [funcCode_len, Nat.zero_add] at h2
-  have hp := funs_placed (coreProg cf pr) (mkCx cf pr) (progFA cf.checked pr) pr.funs (funcLen cf.checked pr.body) hnames h2
-  refine ⟨fun fd h => (hp fd h).1, fun fd h => ?_, fun fd h => (hfd fd h).1, fun fd h => (hfd fd h).2.1, fun fd h => (hfd fd h).2.2⟩
+  have hp := funs_placed (coreProg cf pr) (mkCx cf pr) (progFA cf.checked pr) pr.funs (funcLen cf.checked false pr.body) hnames h2
+  refine ⟨fun fd h => (hp fd h).1, fun fd h => ?_, fun fd h => (hfd fd h).1, fun fd h => (hfd fd h).2.1, fun fd h => (hfd fd h).2.2.1,
+    fun fd h => (hfd fd h).2.2.2⟩
   have := (hp fd h).2
   rw [show funcCode (cxOf (coreProg cf pr) cf.checked (progLen cf.checked pr) (defeatAddr cf pr)) = funcCode (mkCx cf pr) from rfl,
     funcCode_len]
@@ -344,12 +348,12 @@ theorem core_correct (cf : Config) (args : List Int) (pr : CProg) (hw : 2 ≤ cf
     (placedAt_toArray_append cf.w (progCode cf pr) (stdlibCode cf.w (progLen cf.checked pr)) ⟨#[]⟩).1
   unfold progCode at hall
   have hcodeP : PlacedAt (coreProg cf pr) 0
-      (funcCode (cxOf (coreProg cf pr) cf.checked (progLen cf.checked pr) (defeatAddr cf pr)) (progFA cf.checked pr) 0 pr.params pr.body) :=
+      (funcCode (cxOf (coreProg cf pr) cf.checked (progLen cf.checked pr) (defeatAddr cf pr)) (progFA cf.checked pr) 0 false pr.params pr.body) :=
     hall.append.1
-  have hcodeLen : (funcCode (cxOf (coreProg cf pr) cf.checked (progLen cf.checked pr) (defeatAddr cf pr)) (progFA cf.checked pr) 0 pr.params pr.body).length
-      = funcLen cf.checked pr.body := funcCode_len _ _ _ _ _
-  have hfl : funcLen cf.checked pr.body ≤ progLen cf.checked pr := by unfold progLen; omega
-  have hpro := (prologue_ok (ck := cf.checked) lib (progFA cf.checked pr) 0 pr.params pr.body (initMem cf args pr)
+  have hcodeLen : (funcCode (cxOf (coreProg cf pr) cf.checked (progLen cf.checked pr) (defeatAddr cf pr)) (progFA cf.checked pr) 0 false pr.params pr.body).length
+      = funcLen cf.checked false pr.body := funcCode_len _ _ _ _ _ _
+  have hfl : funcLen cf.checked false pr.body ≤ progLen cf.checked pr := by unfold progLen; omega
+  have hpro := (prologue_ok (ck := cf.checked) lib (progFA cf.checked pr) 0 false pr.params pr.body (initMem cf args pr)
     (F0 cf args) (cf.stackWords * cf.w + args.length * cf.w + cf.w) hinv0.fr hcodeP (by rw [hcodeLen]; omega)
     (by show pkS cf.w (entryOff cf.w pr.params) pr.body < 256 ^ cf.w; rw [hF] at hSE0; omega)).1
     (by show pkS cf.w (entryOff cf.w pr.params) pr.body ≤ F0 cf args - 5 * cf.w; rw [hF]; omega)
@@ -365,7 +369,7 @@ theorem core_correct (cf : Config) (args : List Int) (pr : CProg) (hw : 2 ≤ cf
   generalize hBdef : progLen cf.checked pr = B at *
   have hbodyLen : 0 + prologueLen cf.checked +
       (cS (cxOf p cf.checked B (defeatAddr cf pr)) (progFA cf.checked pr) ⟨0, 0, false⟩ (paramGam cf.w (2 * cf.w) pr.params) (0 + prologueLen cf.checked)
-        (entryOff cf.w pr.params) pr.body).length = funcLen cf.checked pr.body := by
+        (entryOff cf.w pr.params) pr.body).length = funcLen cf.checked false pr.body := by
     rw [cS_len]; show 0 + prologueLen cf.checked + lenS cf.checked false pr.body = prologueLen cf.checked + lenS cf.checked false pr.body; omega
   have hbody := cS_ok (ck := cf.checked) lib fok fuel (F0 cf args) (cf.stackWords * cf.w + args.length * cf.w + cf.w)
     (B + off_all_is_win) (by rw [hpw]; simp [off_all_is_win, stdlibLength] at *; omega) ⟨0, 0, false⟩ ⟨by show 0 < 256 ^ p.w; rw [hpw]; omega, by show 0 < 256 ^ p.w; rw [hpw]; omega⟩ .you (hasStop pr.body)
@@ -423,11 +427,11 @@ theorem core_overflow (cf : Config) (args : List Int) (pr : CProg) (hw : 2 ≤ c
     (placedAt_toArray_append cf.w (progCode cf pr) (stdlibCode cf.w (progLen cf.checked pr)) ⟨#[]⟩).1
   unfold progCode at hall
   have hcodeP : PlacedAt (coreProg cf pr) 0
-      (funcCode (cxOf (coreProg cf pr) cf.checked (progLen cf.checked pr) (defeatAddr cf pr)) (progFA cf.checked pr) 0 pr.params pr.body) :=
+      (funcCode (cxOf (coreProg cf pr) cf.checked (progLen cf.checked pr) (defeatAddr cf pr)) (progFA cf.checked pr) 0 false pr.params pr.body) :=
     hall.append.1
-  have hfl : funcLen cf.checked pr.body ≤ progLen cf.checked pr := by unfold progLen; omega
-  obtain ⟨m1, r1⟩ := (prologue_ok (ck := cf.checked) lib (progFA cf.checked pr) 0 pr.params pr.body (initMem cf args pr)
-    (F0 cf args) (cf.stackWords * cf.w + args.length * cf.w + cf.w) hinv0.fr hcodeP (by rw [funcCode_len]; show 0 + funcLen cf.checked pr.body ≤ progLen cf.checked pr; omega)
+  have hfl : funcLen cf.checked false pr.body ≤ progLen cf.checked pr := by unfold progLen; omega
+  obtain ⟨m1, r1⟩ := (prologue_ok (ck := cf.checked) lib (progFA cf.checked pr) 0 false pr.params pr.body (initMem cf args pr)
+    (F0 cf args) (cf.stackWords * cf.w + args.length * cf.w + cf.w) hinv0.fr hcodeP (by rw [funcCode_len]; show 0 + funcLen cf.checked false pr.body ≤ progLen cf.checked pr; omega)
     hpkM).2 hck (by show F0 cf args - 5 * cf.w < pkS cf.w (entryOff cf.w pr.params) pr.body; rw [hF]; omega)
   have r := r1.trans (error_stub_reach lib m1).1
   have nh := tnt_never_halts lib m1
@@ -451,7 +455,7 @@ theorem core_frame_restored {p : Prog} {ck : Bool} {B dA : Nat} {fa : FAddr} {fn
     (lp : Jt) (hlp : lp.cont < 256 ^ p.w ∧ lp.brk < 256 ^ p.w) (hvd : lp.vd = false) (s : S) (Γ : Gam) (env : Env) (pc o : Nat) (m : Mem) (env' : Env) (tr : List Ev) (res : Res)
     (hpl : PlacedAt p pc (cS (cxOf p ck B dA) fa lp Γ pc o s))
     (hB : pc + (cS (cxOf p ck B dA) fa lp Γ pc o s).length ≤ B)
-    (hinv : SInv p .plain Γ env m F D o ra) (hd : Disj p.w Γ) (hwf : wfS false (Γ.map Prod.fst) s = true)
+    (hinv : SInv p .plain Γ env m F D o ra) (hd : Disj p.w Γ) (hwf : wfS fns false (Γ.map Prod.fst) s = true)
     (hpk : pkS p.w o s ≤ D) (ho : p.w ≤ o) (hnt : noTry s = true)
     (hex : exec (256 ^ p.w) (8 * p.w) fns p.w fuel D o env s = some (env', tr, res))
     (hres : res = .norm ∨ res = .returned ∨ ∃ v, res = .retv v) :
